@@ -8,7 +8,9 @@
    returning within 10 s is a 'hang' event no action accepts.  Contention rounds
    (10 goroutines hammering three hot leaves with Query/Walk/handle Update/Add on
    existing paths/Delete+re-Add for 150 ms each) must keep every goroutine
-   progressing ('contend' marker; a stuck round is a 'hang').
+   progressing ('contend' marker; a stuck round is a 'hang').  Duels: tiny
+   histories whose goroutines start together (spin barrier) on conflicting
+   short paths, repeated by the hundred thousand; identical ones validated once.
 2. The same driver built with -race: the race detector monitors the recorded
    executions; every report is normalised to a function-pair signature.
 3. CTree.tla (the sequential meaning the histories are held to) is
@@ -32,7 +34,7 @@ import vlib
 import racelib
 
 PID = "C10"
-TIERS = {"quick": dict(n=1200, race_n=1500, shards=48, contend=40), "thorough": dict(n=40000, race_n=30000, shards=96, contend=600)}
+TIERS = {"quick": dict(n=1200, race_n=1500, shards=48, contend=40, duels=150000), "thorough": dict(n=40000, race_n=30000, shards=96, contend=600, duels=3000000)}
 
 
 LOCK_CFGS = {"quick": ["none", "core3"], "thorough": ["none", "thorough", "core4"]}
@@ -68,7 +70,7 @@ def run(tier):
             raise vlib.Infra("CTreeLocks mutant %s was expected to violate %s, TLC reported %s" % (m, want, lock_mutants[m]))
 
     tr = os.path.join(work, "traces")
-    d = vlib.drv_stats(vlib.run_driver(drv, ["ctree", "conc", "-n", str(T["n"]), "-contend", str(T["contend"]), "-out", tr, "-shards", str(T["shards"])]))
+    d = vlib.drv_stats(vlib.run_driver(drv, ["ctree", "conc", "-n", str(T["n"]), "-contend", str(T["contend"]), "-duels", str(T["duels"]), "-out", tr, "-shards", str(T["shards"])]))
     files = sorted(os.path.join(tr, f) for f in os.listdir(tr) if f.startswith("conc-"))
     tv = time.time()
     stats, rejs = vlib.validate_traces("CTreeLin.tla", "CTreeLin.cfg", files, os.path.join(work, "val"), is_boundary, deque=True,
@@ -84,7 +86,7 @@ def run(tier):
     # race build: the detector's reports are observations of the real executions
     rlog = os.path.join(work, "race")
     rtr = os.path.join(work, "traces-race")
-    dr = vlib.drv_stats(vlib.run_driver(drv_race, ["ctree", "conc", "-n", str(T["race_n"]), "-out", rtr, "-shards", str(T["shards"])],
+    dr = vlib.drv_stats(vlib.run_driver(drv_race, ["ctree", "conc", "-n", str(T["race_n"]), "-duels", str(T["duels"] // 10), "-out", rtr, "-shards", str(T["shards"])],
                                         env={"GORACE": "log_path=%s halt_on_error=0 exitcode=0" % rlog}, timeout=3000))
     races = racelib.parse_reports(rlog)
     for sig, cnt in sorted(races.items()):
@@ -100,10 +102,12 @@ def run(tier):
         samples=vlib.sample_lines(files, 3, skip=lambda l: b'"reset"' in l or b'"inv"' in l),
         evaluations=stats["events"], distinct_nontrivial=distinct,
         rule="%d concurrent histories (2-16 goroutines, 12-55 operations, <=12 distinct paths of depth <=3, Add/Get/Query/Walk/Delete/UpdateLeaf, random delay "
-             "in the reader->writer lock exchange of Add) validated against CTreeLin.tla with inferred linearization points; %d contention rounds of 150 ms "
+             "in the reader->writer lock exchange of Add) and the distinct outcomes of %d duels (2-3 goroutines released together by a spin barrier, 1-2 operations each "
+             "on a handful of short paths incl. the empty path and leaf-versus-branch conflicts at one position; 96 plans per run, each repeated) "
+             "validated against CTreeLin.tla with inferred linearization points; %d contention rounds of 150 ms "
              "(10 goroutines on three hot leaves: queries and walks reading values, updates through retained handles, adds on existing paths, delete+re-add) "
              "in which every goroutine must keep completing operations; %d more histories run under the Go "
-             "race detector; distinct_nontrivial = distinct event lines other than reset" % (T["n"], T["contend"], T["race_n"]),
+             "race detector; distinct_nontrivial = distinct event lines other than reset" % (T["n"], T["duels"], T["contend"], T["race_n"]),
         exhaustive=False, undecided_histories=stats["undecided"], hangs=d.get("hangs", 0) + dr.get("hangs", 0), race_signatures=sorted(races), rejected=len(rejs),
         known_findings_hit=outcome.known, model_drift=0,
         checker_cmd="tlc CTreeMC.tla; tlc CTreeLocksMC.tla (configs %s; mutants %s must fail); tlc CTreeLin.tla per shard (StateDeque, early exit); verifdrv-race ctree conc"
